@@ -187,15 +187,12 @@ _TPAIRS = [('key_arg', 'discard_op'), ('in_handler', 'out_handler'), ('key_arg',
            ('unser_value', 'discard_op'), ('in_handler', 'discard_body'), ('out_handler', 'discard_body'),
            ('key_resolver', 'unser_value'), ('force_op', 'discard_op'), ('force_body', 'in_handler'), ('key_arg', 'out_handler'),
            ('discard_op', 'discard_body')]
-# thorough: the heavier fault kinds on programs <= 3, the other single faults and all 36 pairs on programs <= 2
-_TS = _shards([None, 'key_arg', 'in_handler', 'discard_body', 'unser_value'], [], _TOPS2, []) + \
-      [dict(x, **{'b.L': 2}) for x in _shards(['key_resolver', 'out_handler', 'discard_op', 'force_op', 'force_body'],
-                                              _TPAIRS, _TOPS2,
-                                              _X + [{'f1': 'key_arg', 'f2': None, 'fail_save': True},
-                                                    {'f1': 'discard_body', 'f2': None, 'copy': True}])]
+# thorough: everything of the quick tier, three fault kinds on programs <= 3, twelve pairs of faults on programs <= 2
+_TS = _QS + [dict(x, **{'b.L': 3}) for x in _shards([None, 'key_arg', 'discard_body'], [], _QOPS, [])] + \
+      [dict(x, **{'b.L': 2}) for x in _shards([], _TPAIRS, _TOPS2, [])]
 _W = {'f1': 'key_arg', 'f2': None, 'first': _o('A', 1)}
 _QB = {'L': 2, 'OPS': _QOPS, 'EXCSLOTS': [1], 'EXTRACTORS': [0, 1, 2, 3]}
-_TB = {'L': 3, 'OPS': _TOPS2, 'EXCSLOTS': [1], 'EXTRACTORS': [0, 1, 2, 3, 4, 5, 6]}
+_TB = {'L': 2, 'OPS': _QOPS, 'EXCSLOTS': [1], 'EXTRACTORS': [0, 1, 2, 3, 4, 5, 6]}
 CONDITIONS = [
     {'fn': 'transparent', 'nontrivial': 'fault-fired',
      'what': 'decorated run vs undecorated twin under single faults and pairs at every step; sharded by (fault kinds, first opcode)',
@@ -210,14 +207,14 @@ CONDITIONS = [
                                     for b in ([0, 30], [30, 60], [60, 110])],
                          'witness_shard': {'discard_by': 'worker', 'preemptions': 1, 'bucket': [0, 110]}},
                'thorough': {'bounds': {'STEPS': 110, 'FORCED': 5}, 'timeout': 8000,
-                            'shards': [{'discard_by': d, 'preemptions': 2, 'bucket': [b, b + 5]} for d in ('worker', 'body', 'watchdog')
-                                       for b in range(0, 110, 5)] +
-                                      [{'discard_by': d, 'preemptions': 1, 'bucket': [0, 110]} for d in (None, 'operation')],
+                            'shards': [{'discard_by': d, 'preemptions': 2, 'bucket': [b, b + 10]} for d in ('worker', 'watchdog')
+                                       for b in range(0, 110, 10)] +
+                                      [{'discard_by': d, 'preemptions': 1, 'bucket': [0, 110]} for d in (None, 'operation', 'body')],
                             'witness_shard': {'discard_by': 'worker', 'preemptions': 1, 'bucket': [0, 110]}}}},
     {'fn': 'operation_flavours', 'nontrivial': 'extractor-misbehaves',
      'what': 'metadata extractor succeeding / raising / returning junk on instance and class-level operations',
      'tiers': {'quick': {'bounds': _QB, 'timeout': 300, 'shards': [{'f1': None, 'f2': None, 'first': f} for f in [None, _o('A', 1), _o('O', 1)]],
                          'witness_shard': {'f1': None, 'f2': None, 'first': _o('A', 1)}},
-               'thorough': {'bounds': _TB, 'timeout': 3000, 'shards': [{'f1': None, 'f2': None, 'first': f} for f in [None] + _TOPS2],
+               'thorough': {'bounds': _TB, 'timeout': 3000, 'shards': [{'f1': None, 'f2': None, 'first': f} for f in [None] + _QOPS],
                             'witness_shard': {'f1': None, 'f2': None, 'first': _o('A', 1)}}}},
 ]
